@@ -267,7 +267,7 @@ CLI_QUERIES = ['SELECT account, sum(position) AS s GROUP BY account ORDER BY acc
 def prop_cli(sh, case):
     from click.testing import CliRunner
     fails = []
-    tmp = tempfile.mkdtemp(prefix='c19-', dir='/dev/shm')
+    tmp = tempfile.mkdtemp(prefix='c19-', dir='/dev/shm' if os.path.isdir('/dev/shm') else None)
     path = os.path.join(tmp, 'ledger.beancount')
     with open(path, 'w') as f:
         f.write(CLI_LEDGER)
